@@ -1065,6 +1065,9 @@ def _loop_value(st, it, tag=""):
             and isinstance(at.args[0], Rat):
         idx = mk(st.target.elts[0])
         return [idx, form.apply("elem" + tag, [at.args[0]])]
+    if at is not None and at.func == "call:zip" and isinstance(st.target, (ast.Tuple, ast.List)) and len(st.target.elts) == len(at.args) \
+            and all(isinstance(a, Rat) for a in at.args) and all(isinstance(e_, ast.Name) for e_ in st.target.elts):
+        return [form.apply("elem" + tag, [a]) for a in at.args]
     if at is not None and at.func != "call:range" and isinstance(st.target, ast.Name):
         return form.apply("elem" + tag, [it])
     return mk(st.target)
@@ -1072,6 +1075,10 @@ def _loop_value(st, it, tag=""):
 
 def _loop_value_comp(target, seq):
     at = seq.as_atom()
+    if at is not None and at.func == "call:zip" and isinstance(target, (ast.Tuple, ast.List)) and len(target.elts) == len(at.args) \
+            and all(isinstance(a, Rat) for a in at.args):
+        # for a, b in zip(A, B): a and b are the elements of A and B at the same position
+        return [form.apply("elem", [a]) for a in at.args]
     if at is not None and at.func == "call:range" and isinstance(target, ast.Name):
         return Rat.sym(target.id)
     if isinstance(target, ast.Name):
